@@ -28,11 +28,17 @@ sys.path.insert(0, str(common.VERIF / "tools"))
 import gen_periodic  # noqa: E402  (the C06 model behind Driver/C04b.lean reads the generated periodic table)
 
 PROPERTY = "C04"
-LEAN_TARGETS = ["QcelVerif.Props.C04", "QcelVerif.Driver.C04", "QcelVerif.Props.C04C06", "QcelVerif.Driver.C04b"]
+LEAN_TARGETS = ["QcelVerif.Props.C04", "QcelVerif.Driver.C04", "QcelVerif.Props.C04C06", "QcelVerif.Driver.C04b",
+                "QcelVerif.Model.FromArraysSchema", "QcelVerif.Lemmas.C04Schema", "QcelVerif.Props.C04Schema",
+                "QcelVerif.Lemmas.C04SchemaBridge", "QcelVerif.Props.C04SchemaBridge", "QcelVerif.Driver.C04c"]
 DRIVER = "QcelVerif/Driver/C04.lean"
 # second stream: the same lines through a driver that COMPUTES the per-atom reconciliation with the C06 model
 # (Model/ReconC06.lean) instead of reading the implementation's answers from the line — from_arrays end to end in Lean
 DRIVER_C06 = "QcelVerif/Driver/C04b.lean"
+# third stream: every accepted record through to_schema(dtype=1|2, units='Bohr') -> from_schema; the driver evaluates
+# fromSchema (toSchemaU P r dtype) (ops TS / TS6), the dictionary itself (TSd) and the hypotheses + predicted image of the
+# theorem schema_roundtrip (TSh)
+DRIVER_TS = "QcelVerif/Driver/C04c.lean"
 TRANSLATORS = [gen_periodic.main]
 THEOREMS = [
     ("QcelVerif.FromArrays.from_arrays_inv",
@@ -90,6 +96,46 @@ THEOREMS = [
     ("QcelVerif.FromArrays.rd64_odd", "rd64 (-x) = -(rd64 x): the oddness hypothesis of the idempotence theorems holds for the driver's rounding function"),
     ("QcelVerif.FromArrays.driver_recon_eq", "the reconciler run by Driver/C04b.lean (memoised per-element ranges) is reconOfC06 rd64"),
     ("QcelVerif.FromArrays.selfConsistentB_iff", "the driver's per-atom test (ops FAq/FSq) decides SelfConsistent — the hypothesis of the partial theorem is evaluated on every accepted record"),
+    # ---- the schema round trip (Props/C04Schema.lean; model additions in Model/FromArraysSchema.lean)
+    ("QcelVerif.FromArrays.schema_roundtrip",
+     "dtype 1 and 2, any number of atoms/fragments, ANY reconciler: Inv r, at least one atom, the exported geometry passes the default overlap screen, every atom re-validates to itself "
+     "under from_schema's settings (speclabel=False, caller's nonphysical, default mtol) -> fromSchema env (toSchemaU P r v) = ok (schemaImage P r): r with units='Bohr', no input_units_to_au, "
+     "name defaulted by formula_generator, geometry as exported, canonical separators; everything else unchanged"),
+    ("QcelVerif.FromArrays.schema_roundtrip_of_from_arrays",
+     "the same for a record returned by fromArrays (default mtol, the nonphysical flag later given to from_schema) under NucIdem: the per-atom hypothesis discharged generically"),
+    ("QcelVerif.FromArrays.schema_roundtrip_twice", "under the same hypotheses the image exported again (either dtype) and read back is returned unchanged: r'' = r'"),
+    ("QcelVerif.FromArrays.schemaImage_idem", "schemaImage is a projection: schemaImage (schemaImage r) = schemaImage r"),
+    ("QcelVerif.FromArrays.schema_roundtrip_bohr_named",
+     "a validated record in Bohr without input_units_to_au, with a name, non-negative separators, validated with tooclose >= the default comes back as ITSELF"),
+    ("QcelVerif.FromArrays.toSchemaU_bohr", "for a record in Bohr (nonphysical=False) toSchemaU is the earlier Bohr-only model toSchema"),
+    ("QcelVerif.FromArrays.exported_geometry_bohr",
+     "geometry in the schema = stored geometry when the record is in Bohr; else each coordinate is ONE rounded product with the record's own input_units_to_au (Angstrom, present) "
+     "or conversion_factor(units,'Bohr'); both dtypes"),
+    ("QcelVerif.FromArrays.exported_geometry_length", "the export keeps three coordinates per atom"),
+    ("QcelVerif.FromArrays.roundtripHypB_iff", "the driver's test (op TSh) decides the three extra hypotheses of schema_roundtrip — they are evaluated on every record of the third stream"),
+    ("QcelVerif.FromArrays.geometry_hyp_of_bohr", "a record in Bohr validated with tooclose^2 >= default^2 passes from_schema's overlap screen"),
+    ("QcelVerif.FromArrays.schema_roundtrip_c06_partial",
+     "PARTIAL (C06 model, shipped table, odd rounding): record of fromArrays with default mtol whose atoms are SelfConsistent -> round trip = schemaImage. FULL = without SelfConsistent: "
+     "not formalised for an isotope given without mass (as recon_c06_idem_partial)"),
+    ("QcelVerif.FromArrays.schema_roundtrip_c06_masses", "C06 model: every mass supplied (rd (rd m) = rd m) -> round trip, no hypothesis on the atoms"),
+    ("QcelVerif.FromArrays.schema_roundtrip_c06_plain", "C06 model under rd64, plain molecules (no elea, no mass, labels not consulted): round trip with no residual hypothesis on reconciler or rounding"),
+    ("QcelVerif.FromArrays.schema_roundtrip_twice_c06",
+     "C06 model: EVERY record that came out of fromSchema (any dictionary, masses given and rounded) round-trips to schemaImage and the second trip is the identity; tooclose, mtol, non-empty "
+     "geometry need no hypothesis (from_schema fixed them)"),
+    ("QcelVerif.FromArrays.from_schema_refuses_unrecognised", "schema_name/schema_version not one of the two recognised combinations -> ValidationError"),
+    ("QcelVerif.FromArrays.from_schema_refuses_bad_pattern",
+     "a fragment pattern whose concatenation is not 0..nat-1 (skipped / repeated / out-of-range atom, interleaved or permuted fragments, offset) -> ValidationError, never a reordering"),
+    ("QcelVerif.FromArrays.from_schema_refuses_single_offset", "one fragment that is not [0..len-1] (e.g. [[1,2,3]]; accepted before /repo 35873b6) -> ValidationError"),
+    ("QcelVerif.FromArrays.from_schema_refuses_wrong_length", "a per-atom array of the dictionary whose length is not nat -> ValidationError"),
+    ("QcelVerif.FromArrays.from_schema_refuses_dropped_atoms", "geometry not holding 3 coordinates for each atom of the pattern (not 3n — bare ValueError before /repo 3c92794 — or dropped atoms) -> ValidationError"),
+    ("QcelVerif.FromArrays.schema_roundtrip_needs_atoms", "[decide +kernel] why 'at least one atom' is needed: the atom-less record satisfies Inv and its dictionary is refused by from_schema"),
+    ("QcelVerif.FromArrays.schema_roundtrip_needs_geometry", "[decide +kernel] why the overlap hypothesis is needed: a Bohr record validated with tooclose=0.01 holding atoms 0.05 apart is refused by from_schema"),
+    # ---- C04 <-> C09 (Props/C04SchemaBridge.lean): the two record-level schema models
+    ("QcelVerif.FromArrays.bridge_args", "the from_arrays arguments the C09 model (Model/MolSchema.lean) derives from a to_schema dictionary are the C04 model's schemaInp, field by field"),
+    ("QcelVerif.FromArrays.bridge_image", "C09's expected record inBohr is C04's schemaImage (through toMS)"),
+    ("QcelVerif.FromArrays.c09_roundtrip_discharged",
+     "C09's MolSchema.schema_roundtrip with its from_arrays PARAMETER instantiated by the C04 model: hypothesis hfa discharged under C04's hypotheses; both dtypes incl. the dtype-1 nesting "
+     "(scope: exact products, non-negative separators)"),
 ]
 TRUSTED_BASE = [
     "Lean 4.33 kernel; axioms per theorem audited on every run (subset of propext, Classical.choice, Quot.sound)",
@@ -104,6 +150,15 @@ TRUSTED_BASE = [
     "C05 model ChgMult.vfc and its theorems vfc_sound / vfc_accepts_valid_full (reused unchanged)",
     "numpy: np.array/reshape, np.split (re-stated as Python slice arithmetic), einsum distances in double vs exact rationals (1e-9 exclusion zone)",
     "pydantic v1 field coercion in Molecule.__init__ and _filter_defaults (default-mass test, caller's raw values surviving `{**kwargs, **schema}`): compared behaviourally only (partial)",
+    "to_schema / from_schema round trip: Model/FromArraysSchema.lean (hand-written: to_schema.py:42-99 for dtype 1/2, units='Bohr', any validated stored unit; from_schema.py:60-90) with three "
+    "PARAMETERS taken from the implementation on every line — formula_generator(elem) (C15), constants.conversion_factor('Angstrom','Bohr') (C03), and the rounding of ONE binary64 product "
+    "(the driver runs rd64; numpy elementwise multiply taken as correctly rounded); proved: schema_roundtrip (+ twice, C06 instantiations, refusals); tied to the code by the third stream "
+    "(Driver/C04c.lean: composition, dictionary, theorem hypotheses evaluated per record) — differential, sampled",
+    "Props/C04SchemaBridge.lean ties the C04 schema model to C09's Model/MolSchema.lean (C09's from_arrays parameter instantiated by the C04 model); scope: exact products, non-negative separators",
+    "np_out / unnp (container types of the dictionary) and the provenance stamp are outside the models: checked by the oracle only",
+    "call sequences: the models are stateless functions of the arguments; that the implementation is too (no result depends on earlier calls in the process) is checked by the sequence stream "
+    "(each call diffed against the model and judged as a first call; suspicious calls re-run in a fresh interpreter) — differential",
+    "Molecule(validate=True, **stamped dict) edits: oracle only (pydantic is outside the model)",
     "harness/c04.py generators and the Python oracle",
 ]
 ASSUMPTIONS = [
@@ -113,6 +168,14 @@ ASSUMPTIONS = [
     "pair distances and input_units_to_au within 1e-9 of their thresholds are not generated (implementation compares in double, model in Q)",
     "feed-back of a record uses speclabel=False (the record's elbl is the user part of the label only)",
     "negative separators are Python slice indices: accepted when the split still partitions the atoms in order (property demands the partition, not canonical separators)",
+    "schema round trip: the oracle demands from_schema(to_schema(rec)) == rec-in-Bohr only for records with >= 1 atom, validated under from_schema's own mtol (1e-3) and whose exported (Bohr) "
+    "geometry has no pair closer than 0.1 — from_schema has no mtol=/tooclose=/missing_enabled_return= keywords, so other records may legitimately be refused (kernel-checked counter-examples "
+    "schema_roundtrip_needs_atoms / _needs_geometry); outside that class only model/implementation agreement and the error class are demanded; exported distances within 1e-9 of 0.1 are skipped",
+    "the round-trip image differs from the record exactly in: units -> 'Bohr', input_units_to_au dropped, name defaulted (formula_generator), geometry multiplied by the Bohr factor used "
+    "(one IEEE product per coordinate), negative separators written as nat+s; provenance is re-stamped by from_schema",
+    "Molecule 'with validation on' = validate=True passed explicitly, or validate=None (default) on a dictionary WITHOUT the validated stamp (molecule.py docstring: 'If None validation is always "
+    "applied unless the validated flag is set'); validate=None on a stamped dictionary skips validation by documented design and is not judged",
+    "call sequences vary nonphysical, mtol, tooclose (acceptance-deciding) and speclabel, zero_ghost_fragments, fragment separators, entry point (record-shaping); 3-6 calls per sequence",
 ]
 RULE = (
     "molecules of 0-12 atoms on a jittered lattice (coordinates with <= 10 decimals), elements over the whole table weighted to H-Ar, "
@@ -123,14 +186,31 @@ RULE = (
     "from_arrays(**kw), or from_schema(dict) and Molecule(**kw); every accepted record is fed back. Every line and every fed-back record is answered twice by Lean: "
     "with the implementation's own reconcile_nucleus answers carried on the line (Driver/C04.lean) and with the per-atom reconciliation computed by the C06 model "
     "(Driver/C04b.lean, the whole pipeline in Lean). A case is distinct by its full protocol line and "
-    "non-trivial when it has >= 2 atoms, an omitted descriptor, more than one fragment or ends in a refusal."
+    "non-trivial when it has >= 2 atoms, an omitted descriptor, more than one fragment or ends in a refusal. "
+    "THIRD STREAM (schema round trip): every accepted from_arrays/from_schema record, plus a dedicated generator (stored in Angstrom with a pinned / default input_units_to_au, Bohr with a pinned "
+    "factor, fragments made of ghost atoms only with and without zero_ghost_fragments, negative-but-valid separators, named molecules), goes through to_schema(dtype=1|2 alternating, units='Bohr') "
+    "-> from_schema; compared: the dictionary (wrapper, key set, every value) with Lean's toSchemaU and with the record directly; the returned record with Lean's fromSchema(toSchemaU r v) under "
+    "both reconcilers and with the record-in-Bohr stated directly; the hypotheses and predicted image of the theorem schema_roundtrip evaluated by Lean on the record; then the image is exported with "
+    "the OTHER dtype and read back (must be unchanged). The malformed from_schema stream additionally permutes whole fragments and reverses a fragment (contiguous but out of order). "
+    "SEQUENCES: 3-6 consecutive calls on the same per-atom data in one process with different options (nonphysical / mtol / tooclose permissive-then-strict and strict-then-permissive; speclabel, "
+    "zero_ghost_fragments, separators, entry point FA/FS/MOL varied): every call is diffed against the stateless model and judged by the refusal oracle as a first call; a call that disagrees with the "
+    "model is re-run in a fresh interpreter (oracle:history_dependent). A finding of a sequence call replays the earlier calls first. "
+    "STAMPED DICTIONARIES: for every third accepted Molecule mol.dict() (validated=True) is re-validated with validate=True (fixed point) and then edited into each "
+    "malformed class (overlap, contradictory mass, symbol vs atomic number, charge != sum of fragment charges, infeasible multiplicity, array length, fragments skipping / reordering atoms) and must be "
+    "refused by Molecule(validate=True, **d) and by Molecule(**d without the stamp)."
 )
 LEVEL_TEXT = (
-    "proof for the record-level pipeline of from_arrays/from_schema (model), parametric in the per-atom reconciler (C06) and reusing C05; "
+    "proof for the record-level pipeline of from_arrays/from_schema/to_schema (model), parametric in the per-atom reconciler (C06) and reusing C05; "
     "with the C06 model plugged in (Props/C04C06.lean) the invariant is unconditional and the fixed point is proved for self-consistent atoms, supplied masses, "
     "plain molecules and every second pass — partial: false for mtol wide enough to reach a neighbouring nuclide (kernel-checked counter-example), and not proved "
-    "for a mass number supplied without a mass; the tie to the code is differential (sampled) on two streams (reconciler answers taken from the implementation / "
-    "computed by the C06 model end to end); partial: pydantic coercion in Molecule.__init__ and _filter_defaults are compared behaviourally only"
+    "for a mass number supplied without a mass; the schema round trip from_schema(to_schema(r, 1|2)) = r-in-Bohr is now PROVED for every record satisfying the invariant "
+    "(any size, either stored unit, any reconciler) under three explicit hypotheses each shown necessary or decided per record (>= 1 atom; exported geometry passes the default "
+    "overlap screen; atoms re-validate under from_schema's settings — discharged for the C06 model in the same cases as the fixed point, partial in the same one), the second "
+    "round trip is proved to be the identity, exported_geometry_bohr and the from_schema refusal classes (unrecognised schema, non-contiguous / skipping / offset pattern, "
+    "wrong array length, dropped atoms) are proved, and the C04 and C09 schema models are proved to agree (C09's from_arrays parameter discharged); formula_generator, the "
+    "Angstrom->Bohr factor and the rounding of one product are parameters; the tie to the code is differential (sampled) on three streams (reconciler answers taken from the "
+    "implementation / computed by the C06 model end to end / records through to_schema -> from_schema) plus call sequences checked against the stateless model; "
+    "partial: pydantic coercion in Molecule.__init__ and _filter_defaults are compared behaviourally only"
 )
 TECHNIQUE = "Lean 4 proof of invariant/idempotence/refusal theorems about a stage-by-stage model + differential correspondence through three entry points + independent oracle"
 
@@ -912,6 +992,158 @@ def gen_valid(rng, entry):
     return {"entry": entry, "kw": kw, "st": st, "forms": forms, "schema": schema, "tag": "valid", "_atoms": atoms}
 
 
+def gen_ts_special(rng):
+    """from_arrays inputs aimed at the schema round trip: stored in Angstrom with a pinned input_units_to_au, fragments made
+    of ghost atoms only (zero charge, singlet), negative-but-valid separators, named / commented / bonded molecules;
+    always validated under from_schema's own mtol so that the oracle demands the round trip."""
+    for _ in range(50):
+        case = gen_valid(rng, "FA")
+        kw, st, atoms = case["kw"], case["st"], case["_atoms"]
+        n = len(atoms)
+        if n == 0:
+            continue
+        st["mtol"] = 1.0e-3
+        st["tooclose"] = rng.choice([0.1, 0.1, 0.5])
+        how = rng.choice(["angstrom_pinned", "angstrom_default", "ghost_fragment", "negative_separators", "bohr_pinned"])
+        if how in ("angstrom_pinned", "angstrom_default"):
+            kw["units"] = rng.choice(["Angstrom", "angstrom", "ANGSTROM"])
+            kw.pop("input_units_to_au", None)
+            if how == "angstrom_pinned":
+                kw["input_units_to_au"] = ang_to_au() + rng.choice([0.0, 1e-4, -0.03, 0.0499, -0.0499, 0.02, 1e-9])
+        elif how == "bohr_pinned":
+            kw["units"] = "Bohr"
+            kw["input_units_to_au"] = 1.0 + rng.choice([0.0, 1e-4, -0.03, 0.04])
+        elif how == "ghost_fragment":
+            if n < 2 or st["speclabel"]:
+                continue
+            seps = kw.get("fragment_separators")
+            if not seps:
+                seps = sorted(rng.sample(range(1, n), min(n - 1, rng.choice([1, 2]))))
+                kw["fragment_separators"] = seps
+            div = [0] + [int(x) for x in seps] + [n]
+            k = rng.randrange(len(div) - 1)
+            real = [a["real"] for a in atoms]
+            for at in range(div[k], div[k + 1]):
+                real[at] = False
+            kw["real"] = real
+            for key in ("fragment_charges", "fragment_multiplicities", "molecular_charge", "molecular_multiplicity"):
+                kw.pop(key, None)
+            st["zgf"] = rng.random() < 0.5
+            case["forms"].pop("real", None)
+        else:
+            if n < 2:
+                continue
+            k = rng.randint(1, n - 1)
+            kw["fragment_separators"] = [-k] if (n < 3 or rng.random() < 0.5) else sorted({rng.randint(1, n - 1) - n, -1})
+            for key in ("fragment_charges", "fragment_multiplicities", "molecular_charge", "molecular_multiplicity"):
+                kw.pop(key, None)
+            case["forms"].pop("seps", None)
+        if rng.random() < 0.5:
+            kw["name"] = rng.choice(["water", "mol_1", "X"])
+        case["tag"] = "ts_special:" + how
+        return case
+    return gen_valid(rng, "FA")
+
+
+# ----------------------------------------------------------------------------------------
+# call sequences: the same per-atom data validated several times in ONE process under different options.
+# Validation is a function of its arguments: every call of a sequence is compared with the (stateless) model and
+# judged by the oracle as if it were the first call of a fresh process.
+
+
+def _far_mass(pt, E, rng):
+    vals = list(pt._el2a2mass[E].values())
+    return float(round(max(vals) + 0.5 + rng.choice([0.7, 5.0, 50.0]), 6))
+
+
+def gen_sequence(rng):
+    """3-6 calls on the same molecule; the options that decide acceptance (nonphysical, mtol, tooclose) and those
+    that shape the record (speclabel, zero_ghost_fragments) vary from call to call, permissive-then-strict and
+    strict-then-permissive, through from_arrays / from_schema / Molecule."""
+    pt = _pt()
+    for _ in range(50):
+        base = gen_valid(rng, "FA")
+        atoms = base["_atoms"]
+        n = len(atoms)
+        if n == 0:
+            continue
+        kw, st = base["kw"], base["st"]
+        st.update(speclabel=False, mtol=1.0e-3, tooclose=0.1, nonphysical=False, zgf=False, minimal=False)
+        for k in ("elea", "mass", "elbl", "input_units_to_au"):
+            kw.pop(k, None)
+        kw["units"] = "Bohr"
+        kw["elem"] = [a["E"] for a in atoms]
+        if kw.get("fix_symmetry") == "":
+            kw.pop("fix_symmetry")
+        for k in ("elez", "real"):  # no None holes: the sequence also goes through Molecule(...) (pydantic coercion is outside the model)
+            if kw.get(k) is not None and any(x is None for x in kw[k]):
+                kw.pop(k)
+        base["forms"] = {"geom": "flat"}
+        kind = rng.choice(["nonphysical", "mtol", "tooclose", "nonphysical", "mtol"])
+        at = rng.randrange(n)
+        E = atoms[at]["E"]
+        if kind == "nonphysical":
+            kw["mass"] = [pt.to_mass(a["E"]) for a in atoms]
+            kw["mass"][at] = _far_mass(pt, E, rng)
+            variants = [({"nonphysical": True}, "valid"), ({"nonphysical": False}, "contradictory_nuclear")]
+            entries = ["FA", "FS", "MOL"]
+        elif kind == "mtol":
+            A = pt.to_A(E)
+            kw["elea"] = [pt.to_A(a["E"]) for a in atoms]
+            kw["mass"] = [pt.to_mass(a["E"]) for a in atoms]
+            kw["mass"][at] = pt.to_mass(E + str(A)) + rng.choice([0.004, -0.004, 0.02, 0.2])
+            loose = rng.choice([0.3, 0.5])
+            variants = [({"mtol": loose}, "valid"), ({"mtol": 1.0e-3}, "contradictory_nuclear"), ({"mtol": 1.0e-4}, "contradictory_nuclear")]
+            entries = ["FA"]
+        else:
+            if n < 2:
+                continue
+            b = (at + 1) % n
+            for i in range(3):
+                kw["geom"][3 * b + i] = kw["geom"][3 * at + i] + (0.05 if i == 2 else 0.0)
+            if not acceptable_case(base) or sum(1 for i in range(n) for j in range(i + 1, n)
+                                                if sum((kw["geom"][3 * i + q] - kw["geom"][3 * j + q]) ** 2 for q in range(3)) < 0.01) != 1:
+                continue
+            variants = [({"tooclose": 0.02}, "valid"), ({"tooclose": 0.1}, "too_close"), ({"tooclose": 0.5}, "too_close")]
+            entries = ["FA"]
+        for k in ("fragment_charges", "fragment_multiplicities", "molecular_charge", "molecular_multiplicity", "connectivity"):
+            kw.pop(k, None)
+        nsteps = rng.randint(3, 6)
+        order = [rng.choice(variants) for _ in range(nsteps)]
+        # make sure both orders occur: some permissive call before a strict one and a strict one before a permissive one
+        order[0] = variants[0] if rng.random() < 0.5 else rng.choice(variants[1:])
+        order[1] = rng.choice(variants[1:]) if order[0] is variants[0] else variants[0]
+        order[-1] = rng.choice(variants[1:])
+        steps = []
+        for opt, tag in order:
+            entry = rng.choice(entries)
+            c = {"entry": entry, "kw": json.loads(json.dumps(kw)), "st": dict(st), "forms": dict(base["forms"]), "schema": None, "tag": tag}
+            c["st"].update(opt)
+            if entry == "FA":
+                # options that shape the record but never decide acceptance
+                c["st"]["zgf"] = rng.random() < 0.3
+                c["st"]["speclabel"] = rng.random() < 0.3
+                if c["st"]["speclabel"]:
+                    c["kw"]["elbl"] = [a["E"].lower() for a in atoms]
+                if "fragment_separators" not in c["kw"] and n >= 2 and rng.random() < 0.3:
+                    c["kw"]["fragment_separators"] = [rng.randint(1, n - 1)]
+            else:
+                c["kw"].pop("fragment_separators", None)
+                c["kw"].pop("units", None)
+                c["schema"] = {"schema_name": "qcschema_molecule", "schema_version": 2, "nested": False}
+                if entry == "FS" and rng.random() < 0.3:
+                    c["schema"] = {"schema_name": "qcschema_input", "schema_version": 1, "nested": True}
+                c["st"].update(speclabel=False)
+            steps.append(c)
+        out = []
+        for k, c in enumerate(steps):
+            c = strip_case(c)
+            c["seq"] = {"kind": kind, "pos": k, "prefix": [dict(p, seq=None) for p in out]}
+            out.append(c)
+        return out
+    return []
+
+
 MALFORMED = ["length_mismatch", "geom_not_3n", "too_close", "bad_unit", "bad_separators", "negative_separators",
              "fragment_lengths", "contradictory_nuclear", "bad_bond", "bad_frame", "bad_schema", "bad_pattern", "bad_iutau"]
 
@@ -1049,9 +1281,20 @@ def gen_malformed(rng, entry):
                 continue
             sc = case["schema"]
             base = sc.get("fragments") or [list(range(n))]
-            how = rng.choice(["offset", "skip", "reorder", "empty", "dup", "short", "long"])
+            how = rng.choice(["offset", "skip", "reorder", "empty", "dup", "short", "long", "perm_frags", "reverse_frag"])
             fr_ = [list(f) for f in base]
-            if how == "offset":
+            if how == "perm_frags":  # every fragment contiguous, the fragments in another order
+                if len(fr_) < 2:
+                    continue
+                i, j = rng.sample(range(len(fr_)), 2)
+                fr_[i], fr_[j] = fr_[j], fr_[i]
+            elif how == "reverse_frag":  # one fragment lists its (consecutive) atoms backwards
+                ks = [k for k, f in enumerate(fr_) if len(f) >= 2]
+                if not ks:
+                    continue
+                k = rng.choice(ks)
+                fr_[k] = fr_[k][::-1]
+            elif how == "offset":
                 fr_ = [[i + 1 for i in f] for f in fr_]
             elif how == "skip":
                 if n < 2:
@@ -1144,6 +1387,13 @@ def gen_cases(ctx: Ctx):
                 cases.append(strip_case(c))
     for _ in range(ctx.scale(4, 20)):
         cases.append(strip_case(gen_leak_case(rng)))
+    for _ in range(ctx.scale(250, 1200)):
+        c = gen_ts_special(rng)
+        if acceptable_case(c):
+            cases.append(strip_case(c))
+    # call sequences (consecutive in the list: `evaluate` calls the implementation in list order, in this process)
+    for _ in range(ctx.scale(90, 500)):
+        cases.extend(gen_sequence(rng))
     return cases
 
 
@@ -1279,6 +1529,141 @@ def mol_equal(a, b):
     return ""
 
 
+# ----------------------------------------------------------------------------------------
+# Molecule(validate=True, **stamped_dict): a dictionary that carries `validated: True` (any Molecule.dict(), any
+# to_schema(..., dtype=2) output) whose data were edited afterwards must be refused when validation is on
+
+
+def stamped_edits(d0, nonphysical, mol):
+    """(name, edited dict) — one malformed-class edit each, chosen deterministically from the dictionary itself.
+    (`Molecule.dict()` leaves out fields that equal their defaults; an edit spells the field out from the model.)"""
+    pt = _pt()
+    n = len(d0["symbols"])
+    out = []
+    full = {k: (d0[k] if k in d0 else getattr(mol, k)) for k in ("masses", "atomic_numbers", "molecular_charge", "fragment_charges",
+                                                                  "molecular_multiplicity", "fragment_multiplicities", "fragments", "geometry", "symbols")}
+    d0, stamped = full, d0
+
+    def copy():
+        d = dict(stamped)
+        for k in ("provenance", "extras", "identifiers", "id"):
+            d.pop(k, None)
+        return d
+
+    g = np.array(d0["geometry"], dtype=float).reshape(-1, 3)
+    if n >= 2:
+        d = copy()
+        g2 = g.copy()
+        g2[n - 1] = g2[0] + np.array([0.0, 0.0, 0.05])
+        d["geometry"] = g2
+        out.append(("overlap", d))
+    if not nonphysical:
+        d = copy()
+        m = [float(x) for x in d0["masses"]]
+        E = str(d0["symbols"][0])
+        m[0] = float(round(max(pt._el2a2mass[E].values()) + 0.5 + 5.0, 6))
+        d["masses"] = m
+        d.pop("mass_numbers", None)
+        out.append(("contradictory_mass", d))
+    d = copy()
+    z = [int(x) for x in d0["atomic_numbers"]]
+    z[n - 1] = z[n - 1] % 100 + 1
+    d["atomic_numbers"] = z
+    out.append(("symbol_vs_atomic_number", d))
+    d = copy()
+    d["molecular_charge"] = float(d0["molecular_charge"]) + 1.0
+    d["fragment_charges"] = [float(x) for x in d0["fragment_charges"]]
+    out.append(("charge_not_sum_of_fragment_charges", d))
+    d = copy()
+    d["molecular_multiplicity"] = int(d0["molecular_multiplicity"]) + 1
+    d["fragment_multiplicities"] = [int(x) for x in d0["fragment_multiplicities"]]
+    out.append(("infeasible_multiplicity", d))
+    d = copy()
+    d["masses"] = [float(x) for x in d0["masses"]] + [1.0]
+    out.append(("length_mismatch", d))
+    d = copy()
+    fr_ = [[int(i) for i in f] for f in d0["fragments"]]
+    fr_[-1] = fr_[-1][:-1] + [fr_[-1][-1] + 1]
+    d["fragments"] = fr_
+    out.append(("fragments_skip_atom", d))
+    if n >= 2:
+        d = copy()
+        flat = [int(i) for f in d0["fragments"] for i in f]
+        flat[0], flat[-1] = flat[-1], flat[0]
+        it = iter(flat)
+        d["fragments"] = [[next(it) for _ in f] for f in d0["fragments"]]
+        out.append(("fragments_reordered", d))
+    return out
+
+
+def stamped_dict_checks(out: Outcome, case, mol, nonphysical):
+    import qcelemental as qcel
+
+    d0 = mol.dict()
+    extra = {"nonphysical": True} if nonphysical else {}
+    if d0.get("validated") is not True:
+        out.violations.append(Finding("oracle:stamped:no_stamp", case, observed=str(d0.get("validated")), detail="Molecule.dict() of a validated molecule does not carry validated=True"))
+        return
+    # validation on, explicitly, on the untouched stamped dictionary: a fixed point
+    again = _quiet(lambda: qcel.models.Molecule(validate=True, **dict(mol.dict(), **extra)))
+    if again[0] != "ok":
+        out.violations.append(Finding("oracle:not_fixed_point", case, observed="err " + again[1], detail="Molecule(validate=True, **mol.dict()) refused: " + again[2]))
+    else:
+        dd = mol_equal(mol, again[1])
+        if dd:
+            out.violations.append(Finding("oracle:not_fixed_point", case, observed=dd, detail="Molecule(validate=True, **mol.dict()) differs from mol"))
+    for name, d in stamped_edits(d0, nonphysical, mol):
+        out.count("stamped_edit:" + name)
+        # (a) validation explicitly on, the stamp present
+        r1 = _quiet(lambda: qcel.models.Molecule(validate=True, **dict(d, **extra)))
+        # (b) the documented default: validate=None means "validate unless the stamp is set" -> stamp removed = validation on
+        d2 = {k: v for k, v in d.items() if k != "validated"}
+        r2 = _quiet(lambda: qcel.models.Molecule(**dict(d2, **extra)))
+        for how, r in (("validate=True, stamped", r1), ("validate=None, stamp removed", r2)):
+            if r[0] == "ok":
+                m = r[1]
+                out.violations.append(Finding("oracle:stamped_dict_not_refused:" + name, case,
+                                              observed=f"accepted: symbols={list(map(str, m.symbols))} masses={[float(x) for x in m.masses]} chg={m.molecular_charge}/{list(m.fragment_charges)} "
+                                                       f"mult={m.molecular_multiplicity}/{list(m.fragment_multiplicities)} fragments={m.fragments}"[:500],
+                                              expected="ValidationError",
+                                              detail=f"Molecule({how}) accepted mol.dict() edited into class '{name}' (validation on must refuse: no valid record exists)"))
+            elif r[1] != "Validation" and not (name in ("contradictory_mass", "symbol_vs_atomic_number") and r[1] == "NotAnElement"):
+                out.violations.append(Finding("oracle:stamped_dict_error_class:" + name, case, observed="err " + r[1], expected="ValidationError",
+                                              detail=f"Molecule({how}) on class '{name}' raised {r[1]}: {r[2]}"))
+
+
+# ----------------------------------------------------------------------------------------
+# history independence: a call inside a sequence must answer what a fresh process answers
+
+_FRESH_SRC = r"""
+import sys, json, contextlib, io
+sys.path.insert(0, sys.argv[1])
+import c04
+case = json.load(open(sys.argv[2]))
+res = c04.impl_primary(case)
+if res[0] == "ok":
+    print(json.dumps(["ok", c04.canon_rec(res[1]) if case["entry"] != "MOL" else "ok(Molecule)"]))
+else:
+    print(json.dumps(["err", res[1]]))
+"""
+
+
+def fresh_process_answer(ctx: Ctx, case):
+    """the same single call in a new interpreter (nothing validated before it)."""
+    import subprocess
+    import sys as _sys
+    import os as _os
+
+    f = ctx.work / f"fresh.{_os.getpid()}.{abs(hash(case_key(case))) % 10**9}.json"
+    c = {k: v for k, v in case.items() if k != "seq"}
+    f.write_text(json.dumps(c))
+    p = subprocess.run([_sys.executable, "-c", _FRESH_SRC, str(common.VERIF / "harness"), str(f)], capture_output=True, text=True, timeout=300,
+                       env=dict(_os.environ))
+    if p.returncode != 0:
+        raise RuntimeError("fresh-process worker failed: " + p.stderr[-800:])
+    return json.loads(p.stdout.strip().split("\n")[-1])
+
+
 def case_key(case):
     return json.dumps(case, sort_keys=True, default=str)
 
@@ -1319,11 +1704,20 @@ def evaluate(ctx: Ctx, out: Outcome, cases):
     sc_lines = []  # (index, primary line with op FAq/FSq): is the hypothesis of from_arrays_idempotent_c06_partial met?
     not_fixed = set()  # indices where the implementation's record fed back did not come back unchanged
     results = []
+    fresh_budget = [8]  # fresh-interpreter re-runs of suspicious sequence calls (each costs an import of the library)
     for idx, (case, line, ml, ml6) in enumerate(zip(cases, lines, model, model6)):
         entry, st = case["entry"], case["st"]
         res = impl_primary(case)
         results.append(res)
         out.evaluations += 1
+        if case.get("seq"):
+            sq = case["seq"]
+            out.count(f"sequence:{sq['kind']}:pos{sq['pos']}:{entry}:{case['tag']}")
+            prev = [p["tag"] for p in sq["prefix"]]
+            if case["tag"] != "valid" and "valid" in prev:
+                out.count("sequence:strict_after_permissive")
+            if case["tag"] == "valid" and any(t != "valid" for t in prev):
+                out.count("sequence:permissive_after_strict")
         out.count("entry:" + entry)
         out.count("tag:" + case["tag"])
         n = len(case["kw"].get("geom") or []) // 3
@@ -1413,6 +1807,8 @@ def evaluate(ctx: Ctx, out: Outcome, cases):
                 d = mol_equal(mol, again[1])
                 if d:
                     out.violations.append(Finding("oracle:not_fixed_point", case, observed=d, detail="Molecule(**mol.dict()) differs from mol"))
+            if idx % 3 == 0:  # every third accepted Molecule (a replayed case has idx 0)
+                stamped_dict_checks(out, case, mol, bool(st["nonphysical"]))
             extra = {"nonphysical": True} if st["nonphysical"] else {}
             again2 = _quiet(lambda: qcel.models.Molecule(**dict(mol.dict(), validated=False, **extra)))
             if again2[0] != "ok":
@@ -1441,6 +1837,15 @@ def evaluate(ctx: Ctx, out: Outcome, cases):
                         out.mismatches.append(Finding("mismatch:MOL", case, observed=ci, expected=ml, detail="Molecule accepted what the from_schema model refuses"))
                     elif ml != ci:
                         out.mismatches.append(Finding("mismatch:MOL", case, observed=ci, expected=ml, detail="error class"))
+        # ---------------- history independence (sequences): the stateless model disagrees -> what does a fresh process say?
+        if case.get("seq") and case["seq"]["pos"] > 0 and ml is not None and entry != "MOL" and ml != ci and fresh_budget[0] > 0:
+            fresh_budget[0] -= 1
+            fr_ans = fresh_process_answer(ctx, case)
+            cf_ = fr_ans[1] if fr_ans[0] == "ok" else "err " + fr_ans[1]
+            if cf_ != ci:
+                out.violations.append(Finding("oracle:history_dependent", case, observed=ci[:600], expected=cf_[:600],
+                                              detail=f"call #{case['seq']['pos']} of a sequence answers differently from the same call in a fresh process "
+                                                     f"(earlier calls: {[ (p['entry'], p['tag'], {k: p['st'][k] for k in ('nonphysical', 'mtol', 'tooclose', 'speclabel', 'zgf')}) for p in case['seq']['prefix']]})"[:900]))
         # ---------------- correspondence, second stream: the per-atom reconciliation computed by the C06 model
         if ml6 is not None:
             out.count("c06_stream:" + entry)
@@ -1485,12 +1890,310 @@ def evaluate(ctx: Ctx, out: Outcome, cases):
     return results
 
 
+# ----------------------------------------------------------------------------------------
+# third stream: the schema round trip  to_schema(rec, dtype, units='Bohr') -> from_schema -> rec'
+
+
+_CF = None
+
+
+def cf_ang_bohr():
+    """the factor to_schema uses for an Angstrom record without its own input_units_to_au (to_schema.py:49)"""
+    global _CF
+    if _CF is None:
+        import qcelemental as qcel
+
+        _CF = float(qcel.constants.conversion_factor("Angstrom", "Bohr"))
+    return _CF
+
+
+def formula_of(rec):
+    from qcelemental.molparse.to_string import formula_generator
+
+    return formula_generator(rec["elem"])
+
+
+def ts_line(op, rec, nonph, dtype, with_table):
+    """one line for Driver/C04c.lean: the record laid out exactly as the drivers answer it."""
+    kw = rec_as_kw(rec)
+    n = len(kw["elem"])
+    table = table_for(kw, n, False, nonph, 1.0e-3) if with_table else ""
+    head = [op, " ".join([t_bool(nonph), fr(ang_to_au()), fr(cf_ang_bohr()), str(int(dtype))])]
+    return "|".join(head + canon_rec(rec).split("|")[1:] + [t_str(formula_of(rec)), "~", table])
+
+
+def call_to_schema(rec, dtype):
+    from qcelemental.molparse import to_schema
+
+    return _quiet(lambda: to_schema(rec, dtype=dtype, units="Bohr"))
+
+
+def call_from_schema_dict(d, nonph):
+    from qcelemental.molparse import from_schema
+
+    if nonph:
+        return _quiet(lambda: from_schema(d, nonphysical=True))
+    return _quiet(lambda: from_schema(d))
+
+
+def canon_schema_dict(d, dtype):
+    """the implementation's dictionary in the layout of the driver's `TSd` answer."""
+    ms = d.get("molecule", {}) if dtype == 1 else d
+    conn = ms.get("connectivity")
+    fcom, fori = ms.get("fix_com"), ms.get("fix_orientation")
+    parts = [
+        "dict",
+        t_str(d.get("schema_name")),
+        t_int(d.get("schema_version")),
+        t_list(ms.get("fragments"), lambda f: ":".join(str(int(i)) for i in f) if len(f) else "e"),
+        t_list(flat_geom(ms.get("geometry")), fr),
+        t_list(ms.get("mass_numbers"), t_int),
+        t_list(ms.get("atomic_numbers"), t_int),
+        t_list(ms.get("symbols"), t_str),
+        t_list(ms.get("masses"), fr),
+        t_list(ms.get("real"), t_bool),
+        t_list(ms.get("atom_labels"), t_str),
+        t_str(ms.get("name")),
+        t_str(ms.get("comment")),
+        t_tri(bool(fcom) if isinstance(fcom, (bool, np.bool_)) else fcom),
+        t_tri(bool(fori) if isinstance(fori, (bool, np.bool_)) else fori),
+        t_str(ms.get("fix_symmetry")),
+        t_list(ms.get("fragment_charges"), c_intlike),
+        t_list(ms.get("fragment_multiplicities"), c_intlike),
+        "~" if ms.get("molecular_charge") is None else c_intlike(ms["molecular_charge"]),
+        "~" if ms.get("molecular_multiplicity") is None else c_intlike(ms["molecular_multiplicity"]),
+        "~" if conn is None else "L" + ",".join(f"{int(a)}:{int(b)}:{fr(o)}" for a, b, o in conn),
+    ]
+    return "|".join(parts)
+
+
+MOL_KEYS = {"validated", "symbols", "geometry", "masses", "atomic_numbers", "mass_numbers", "atom_labels", "name",
+            "molecular_charge", "molecular_multiplicity", "real", "fragments", "fragment_charges", "fragment_multiplicities",
+            "fix_com", "fix_orientation", "provenance"}
+
+
+def dict_complaints(d, rec, dtype, geom_exp):
+    """the exported dictionary stated directly (independent of the model): the dtype 1 / 2 wrapper, the key set, and
+    every value equal to the record's (geometry: the stored one times the Bohr factor used)."""
+    bad = []
+    if dtype == 1:
+        if set(d.keys()) != {"schema_name", "schema_version", "molecule"}:
+            bad.append(f"dtype 1 top-level keys {sorted(d.keys())}")
+            return bad
+        if d["schema_name"] != "qcschema_input" or d["schema_version"] != 1:
+            bad.append(f"dtype 1 header {d['schema_name']!r}/{d['schema_version']!r}")
+        ms = d["molecule"]
+        if "schema_name" in ms or "schema_version" in ms:
+            bad.append("dtype 1 molecule carries schema_name/schema_version")
+    else:
+        if d.get("schema_name") != "qcschema_molecule" or d.get("schema_version") != 2:
+            bad.append(f"dtype 2 header {d.get('schema_name')!r}/{d.get('schema_version')!r}")
+        if "molecule" in d:
+            bad.append("dtype 2 dictionary is nested")
+        ms = {k: v for k, v in d.items() if k not in ("schema_name", "schema_version")}
+    want = set(MOL_KEYS) | {k for k in ("comment", "fix_symmetry", "connectivity") if k in rec}
+    if set(ms.keys()) != want:
+        bad.append(f"molecule keys: missing {sorted(want - set(ms.keys()))} extra {sorted(set(ms.keys()) - want)}")
+        return bad
+    n = len(rec["elem"])
+
+    def eq(name, a, b):
+        if a != b:
+            bad.append(f"{name}: {str(a)[:80]} vs record {str(b)[:80]}")
+
+    eq("symbols", [str(x) for x in ms["symbols"]], [str(x) for x in rec["elem"]])
+    eq("geometry", [Fraction(float(x)) for x in flat_geom(ms["geometry"])], [Fraction(x) for x in geom_exp])
+    eq("masses", [Fraction(float(x)) for x in ms["masses"]], [Fraction(float(x)) for x in rec["mass"]])
+    eq("atomic_numbers", [int(x) for x in ms["atomic_numbers"]], [int(x) for x in rec["elez"]])
+    eq("mass_numbers", [int(x) for x in ms["mass_numbers"]], [int(x) for x in rec["elea"]])
+    eq("atom_labels", [str(x) for x in ms["atom_labels"]], [str(x) for x in rec["elbl"]])
+    eq("real", [bool(x) for x in ms["real"]], [bool(x) for x in rec["real"]])
+    eq("name", ms["name"], rec.get("name", formula_of(rec)))
+    eq("fragments", [[int(i) for i in f] for f in ms["fragments"]], py_split_points(n, rec["fragment_separators"]))
+    eq("fragment_charges", [float(x) for x in ms["fragment_charges"]], [float(x) for x in rec["fragment_charges"]])
+    eq("fragment_multiplicities", [int(x) for x in ms["fragment_multiplicities"]], [int(x) for x in rec["fragment_multiplicities"]])
+    eq("molecular_charge", float(ms["molecular_charge"]), float(rec["molecular_charge"]))
+    eq("molecular_multiplicity", int(ms["molecular_multiplicity"]), int(rec["molecular_multiplicity"]))
+    eq("fix_com", ms["fix_com"], bool(rec["fix_com"]))
+    eq("fix_orientation", ms["fix_orientation"], bool(rec["fix_orientation"]))
+    for k in ("comment", "fix_symmetry"):
+        if k in rec:
+            eq(k, ms[k], rec[k])
+    if "connectivity" in rec:
+        eq("connectivity", [(int(a), int(b), Fraction(float(o))) for a, b, o in ms["connectivity"]],
+           [(int(a), int(b), Fraction(float(o))) for a, b, o in rec["connectivity"]])
+    if ms["validated"] is not True:
+        bad.append("validated flag not True")
+    return bad
+
+
+def exported_geometry(rec):
+    """geometry in the schema = stored geometry x (1 if Bohr else the factor used): one IEEE product per coordinate."""
+    g = [float(x) for x in np.asarray(rec["geom"]).ravel()]
+    if rec["units"] == "Bohr":
+        return g
+    f = float(rec["input_units_to_au"]) if "input_units_to_au" in rec else cf_ang_bohr()
+    return [x * f for x in g]
+
+
+def canonical_seps(n, seps):
+    out = []
+    for s_ in seps:
+        s_ = int(s_)
+        out.append(max(s_ + n, 0) if s_ < 0 else min(s_, n))
+    return out
+
+
+def image_of(rec):
+    """the record the round trip must return, stated directly: the same molecule in Bohr."""
+    exp = dict(rec)
+    exp["units"] = "Bohr"
+    exp.pop("input_units_to_au", None)
+    exp["name"] = rec.get("name", formula_of(rec))
+    exp["geom"] = np.array(exported_geometry(rec))
+    exp["fragment_separators"] = canonical_seps(len(rec["elem"]), rec["fragment_separators"])
+    return exp
+
+
+def ts_stage(ctx: Ctx, out: Outcome, cases, results):
+    """every accepted from_arrays / from_schema record: to_schema (dtype 1 or 2) -> from_schema -> compare; the image
+    exported with the other dtype and read back must be unchanged."""
+    jobs = []  # (case index, record, nonphysical, dtype, qualified, kind)
+    for idx, (case, res) in enumerate(zip(cases, results)):
+        if res[0] != "ok" or case["entry"] == "MOL":
+            continue
+        rec, st = res[1], case["st"]
+        n = len(rec["elem"])
+        mtol = st["mtol"] if case["entry"] == "FA" else 1.0e-3
+        gexp = exported_geometry(rec)
+        close, margin = min_dist_margin(gexp, 0.1) if n >= 2 else (False, 1.0)
+        if margin < 1e-9:
+            out.count("ts:skipped_exclusion_zone")
+            continue
+        # the oracle demands the round trip for records validated under from_schema's own settings
+        qualified = n >= 1 and mtol == 1.0e-3 and not close
+        if ctx.thorough and len(cases) > 1 and case["tag"] in ("valid",) and not case.get("seq") and (idx // 2) % 2 == 1:
+            continue  # thorough tier: half of the bulk valid stream (all dedicated / malformed-accepted / sequence records are kept)
+        dtype = 1 + (idx % 2)
+        jobs.append((idx, rec, bool(st["nonphysical"]), dtype, qualified, gexp))
+    if not jobs:
+        return
+    impl = []
+    second = []  # (job index, image record, dtype2)
+    for j, (idx, rec, nonph, dtype, qualified, gexp) in enumerate(jobs):
+        case = cases[idx]
+        out.evaluations += 1
+        out.count(f"ts:dtype{dtype}:" + ("qualified" if qualified else "outside_from_schema_settings"))
+        out.count("ts:stored_units:" + rec["units"] + ("+input_units_to_au" if "input_units_to_au" in rec else ""))
+        if any(int(s_) < 0 for s_ in rec["fragment_separators"]):
+            out.count("ts:negative_separators")
+        zs = [int(z) * (1 if r_ else 0) for z, r_ in zip(rec["elez"], rec["real"])]
+        if any(sum(zs[i] for i in p) == 0 for p in py_split_points(len(zs), rec["fragment_separators"]) if p):
+            out.count("ts:ghost_fragment")
+        d = call_to_schema(rec, dtype)
+        if d[0] != "ok":
+            impl.append((None, "err(to_schema) " + d[1]))
+            out.violations.append(Finding("oracle:ts:to_schema_raised", case, observed=d[1] + ": " + d[2], expected="a dictionary",
+                                          detail=f"to_schema(rec, dtype={dtype}, units='Bohr') raised on a validated record"))
+            continue
+        d = d[1]
+        for msg in dict_complaints(d, rec, dtype, gexp):
+            out.violations.append(Finding("oracle:ts:exported_dict", case, observed=msg, expected="the record's own data in the dtype's wrapper",
+                                          detail=f"to_schema(rec, dtype={dtype}, units='Bohr'): {msg}"))
+        back = call_from_schema_dict(d, nonph)
+        cb = canon_rec(back[1]) if back[0] == "ok" else "err " + back[1]
+        impl.append((d, cb))
+        out.nontrivial("TS|" + str(dtype) + "|" + canon_rec(rec))
+        if back[0] == "err" and back[1] not in ("Validation", "NotAnElement"):
+            out.violations.append(Finding("oracle:ts:error_class", case, observed=cb, expected="ValidationError", detail=back[2]))
+        if qualified:
+            want = canon_rec(image_of(rec))
+            if cb != want:
+                out.violations.append(Finding("oracle:ts:roundtrip", case, observed=cb[:600], expected=want[:600],
+                                              detail=f"from_schema(to_schema(rec, dtype={dtype}, units='Bohr')) is not the record in Bohr: "
+                                              + (first_diff(want, cb) if back[0] == "ok" else back[2])))
+        if back[0] == "ok":
+            for clause, msg in inv_complaints(back[1], dict(DEFAULT_ST, nonphysical=nonph)):
+                out.violations.append(Finding("oracle:ts:inv:" + clause, case, observed=cb[:600], detail="round-tripped record: " + msg))
+            d2 = call_to_schema(back[1], 3 - dtype)
+            if d2[0] != "ok":
+                out.violations.append(Finding("oracle:ts:to_schema_raised", case, observed=d2[1], detail="to_schema on the round-tripped record raised: " + d2[2]))
+            else:
+                b2 = call_from_schema_dict(d2[1], nonph)
+                cb2 = canon_rec(b2[1]) if b2[0] == "ok" else "err " + b2[1]
+                out.count("ts:second_trip")
+                if cb2 != cb:
+                    out.violations.append(Finding("oracle:ts:second_trip_not_identity", case, observed=cb2[:600], expected=cb[:600],
+                                                  detail=f"from_schema(to_schema(rec', dtype={3 - dtype})) != rec': " + (first_diff(cb, cb2) if b2[0] == "ok" else b2[2])))
+                second.append((j, back[1], 3 - dtype))
+    if not ctx.model_available:
+        return
+    lines = []
+    for (idx, rec, nonph, dtype, qualified, gexp) in jobs:
+        lines.append(ts_line("TS", rec, nonph, dtype, True))
+        lines.append(ts_line("TS6", rec, nonph, dtype, False))
+        lines.append(ts_line("TSh", rec, nonph, dtype, True))
+        lines.append(ts_line("TSd", rec, nonph, dtype, False))
+    for (j, rec2, dtype2) in second:
+        lines.append(ts_line("TS", rec2, jobs[j][2], dtype2, True))
+    ans = ctx.run_model(DRIVER_TS, lines)
+    for a, l in zip(ans, lines):
+        if a.startswith("bad-op") or "TABLE-MISS" in a:
+            raise RuntimeError(f"TS line not understood by the driver: {a} / {l[:400]}")
+    for j, (idx, rec, nonph, dtype, qualified, gexp) in enumerate(jobs):
+        case = cases[idx]
+        a_ts, a_ts6, a_h, a_d = ans[4 * j: 4 * j + 4]
+        d, cb = impl[j]
+        if d is None:
+            continue
+        cd = canon_schema_dict(d, dtype)
+        if a_d != cd:
+            fa_, fb_ = a_d.split("|"), cd.split("|")
+            k = next((i for i, (x, y) in enumerate(zip(fa_, fb_)) if x != y), -1)
+            out.mismatches.append(Finding("mismatch:TS:dict", case, observed=cd[:600], expected=a_d[:600],
+                                          detail=f"to_schema dictionary vs Lean toSchemaU (dtype {dtype}), field #{k}: {fb_[k][:100] if k >= 0 else ''} vs {fa_[k][:100] if k >= 0 else ''}"))
+        if a_ts != cb:
+            out.mismatches.append(Finding("mismatch:TS", case, observed=cb[:600], expected=a_ts[:600],
+                                          detail=f"from_schema(to_schema(rec, {dtype})) vs Lean fromSchema (toSchemaU r {dtype}): "
+                                          + (first_diff(cb, a_ts) if cb.startswith("ok") and a_ts.startswith("ok") else "")))
+        if a_ts6 != cb and a_ts6 != a_ts:
+            out.mismatches.append(Finding("mismatch:c06:TS", case, observed=cb[:600], expected=a_ts6[:600],
+                                          detail="the same with the C06 model as reconciler (end to end): "
+                                          + (first_diff(cb, a_ts6) if cb.startswith("ok") and a_ts6.startswith("ok") else "")))
+        # the theorem's hypotheses and predicted image, evaluated by Lean on this record
+        if a_h.startswith("hyp T|"):
+            out.count("schema_roundtrip_hypotheses:hold")
+            if a_ts != a_h[len("hyp T|"):]:
+                out.mismatches.append(Finding("mismatch:TS:theorem_instance", case, observed=a_ts[:600], expected=a_h[:600],
+                                              detail="roundtripHypB holds but the evaluated fromSchema (toSchemaU r v) is not schemaImage r (cannot happen if schema_roundtrip is what the driver runs)"))
+        elif a_h.startswith("hyp F|"):
+            out.count("schema_roundtrip_hypotheses:fail")
+            if qualified:
+                out.count("schema_roundtrip_hypotheses:fail_on_qualified_record")
+        else:
+            raise RuntimeError(f"TSh answer not understood: {a_h[:200]}")
+    base = 4 * len(jobs)
+    for k, (j, rec2, dtype2) in enumerate(second):
+        a2 = ans[base + k]
+        if a2 != canon_rec(rec2):
+            out.mismatches.append(Finding("mismatch:TS:second_trip", cases[jobs[j][0]], observed=canon_rec(rec2)[:600], expected=a2[:600],
+                                          detail=f"Lean fromSchema (toSchemaU r' {dtype2}) on the implementation's round-tripped record does not return it: "
+                                          + (first_diff(canon_rec(rec2), a2) if a2.startswith("ok") else a2)))
+
+
 def run(ctx: Ctx) -> Outcome:
     out = Outcome()
     cases = gen_cases(ctx)
-    evaluate(ctx, out, cases)
+    results = evaluate(ctx, out, cases)
+    nprim = out.evaluations
+    ts_stage(ctx, out, cases, results)
     ok = sum(v for k, v in out.distribution.items() if k.startswith("outcome:") and k.endswith(":ok"))
-    out.notes.append(f"accepted {ok} of {out.evaluations} generated cases ({100.0*ok/max(out.evaluations,1):.1f}%); valid-tagged stream: see tag:valid")
+    out.notes.append(f"accepted {ok} of {nprim} generated cases ({100.0*ok/max(nprim,1):.1f}%); valid-tagged stream: see tag:valid")
+    nts = sum(v for k, v in out.distribution.items() if k.startswith("ts:dtype"))
+    out.notes.append(f"third stream: {nts} accepted records through to_schema(dtype=1|2, units='Bohr') -> from_schema, compared field by field with Lean's "
+                     "fromSchema (toSchemaU r dtype) (reconciler answers from the implementation / computed by the C06 model), the dictionary with toSchemaU itself, "
+                     f"and the image read back with the other dtype ({out.distribution.get('ts:second_trip', 0)} second trips); hypotheses of schema_roundtrip hold on "
+                     f"{out.distribution.get('schema_roundtrip_hypotheses:hold', 0)}, fail on {out.distribution.get('schema_roundtrip_hypotheses:fail', 0)}")
     n6 = sum(v for k, v in out.distribution.items() if k.startswith("c06_stream:"))
     out.notes.append(f"second stream: {n6} lines + {out.distribution.get('fed_back', 0)} fed-back records through Driver/C04b.lean (per-atom reconciliation computed by the C06 model, "
                      "the implementation's answers on the line ignored) and compared with the implementation")
@@ -1504,5 +2207,10 @@ def run(ctx: Ctx) -> Outcome:
 
 def replay(ctx: Ctx, case) -> Outcome:
     out = Outcome()
-    evaluate(ctx, out, [case])
+    if case.get("seq"):
+        # a call of a sequence: the earlier calls of the sequence are made first, in this process (their answers are not judged here)
+        for p in case["seq"]["prefix"]:
+            impl_primary(p)
+    results = evaluate(ctx, out, [case])
+    ts_stage(ctx, out, [case], results)
     return out
